@@ -474,13 +474,15 @@ def element_source(init):
     return p, kind
 
 
-def check_invalidation(run, rule, facts):
+def check_invalidation(run, rule, facts, only_cls=None, floor=10):
     """A reference, pointer or iterator into a vector / string is dead after anything that may reallocate or shrink the
     container; a later use reads or writes freed memory.  Flow order as in the normalisation (a growth call between the
     binding and a use, or in a loop that contains the use but not the binding)."""
     n = 0
     for f in sorted(facts.functions.values(), key=lambda f: (f.get("file", ""), f.get("line", 0))):
         if not f.get("file", "").startswith(facts.repo + "/src/") or f.get("body") is None:
+            continue
+        if only_cls is not None and f.get("cls") != only_cls:
             continue
         body = f["body"]
         order, loops_of = {}, {}
@@ -598,7 +600,7 @@ def check_invalidation(run, rule, facts):
                    "`%s` refers into %s (bound at line %s) and is used at line %s after %s.%s() at line %s: the call may reallocate the "
                    "container, the reference then points into freed memory" % (
                        v.get("n"), ir.path_str(cp), d.get("l"), hit[0].get("l"), ir.path_str(cp), hit[1], hit[2].get("l")))
-    run.floor(rule, 10, "references / iterators into standard containers")
+    run.floor(rule, floor, "references / iterators into standard containers")
 
 
 # ------------------------------------------------------------------ R03.9 a cursor that indexes the input moves forward
